@@ -53,7 +53,7 @@ func dependants(exp *ref.Result, f *ref.Task) map[string]bool {
 }
 
 // failureProblems is the C09 oracle for a run in which task f was made to fail.
-func failureProblems(res *run.Result, exp *ref.Result, f *ref.Task, failProc string, onlyIdx int) []mon.Problem {
+func failureProblems(res *run.Result, exp *ref.Result, f *ref.Task, failProc string, onlyIdx int, mayStart bool) []mon.Problem {
 	var ps []mon.Problem
 	out := res.Output()
 	if res.Exit == 0 {
@@ -88,7 +88,7 @@ func failureProblems(res *run.Result, exp *ref.Result, f *ref.Task, failProc str
 			for k := range dependants(exp, t) {
 				deps[k] = true
 			}
-			if len(ti.Starts[t.Key]) > 0 {
+			if len(ti.Starts[t.Key]) > 0 && !mayStart {
 				ps = append(ps, mon.Problem{Sig: "unformable-task-executed", Msg: "task " + t.Key + " executed although it cannot be formed"})
 			}
 		}
@@ -153,7 +153,7 @@ func c09(args []string) {
 				cmdProcs = append(cmdProcs, p)
 			}
 		}
-		for k, kind := range []string{"empty-param", "missing-tag", "path-space", "path-colon", "path-empty"} {
+		for k, kind := range []string{"empty-param", "missing-tag", "path-space", "path-colon", "path-empty", "path-name-too-long", "path-through-regular-file"} {
 			p := cmdProcs[rng.Intn(len(cmdProcs))]
 			s2 := s.Clone()
 			p2 := s2.Proc(p.Name)
@@ -183,11 +183,24 @@ func c09(args []string) {
 					continue
 				}
 				p2.Cmd += " t=x:{t:" + inPort + ".nosuchtag}"
-			case "path-space", "path-colon", "path-empty":
+			case "path-space", "path-colon", "path-empty", "path-name-too-long", "path-through-regular-file":
 				if outPort == "" {
 					continue
 				}
-				pat := map[string]string{"path-space": "bad name." + p.Name, "path-colon": "a:b." + p.Name, "path-empty": ""}[kind]
+				var aSource string
+				for f := range s.Sources {
+					if !strings.Contains(f, "/") && (aSource == "" || f < aSource) {
+						aSource = f
+					}
+				}
+				if kind == "path-through-regular-file" && aSource == "" {
+					continue
+				}
+				pat := map[string]string{"path-space": "bad name." + p.Name, "path-colon": "a:b." + p.Name, "path-empty": "",
+					"path-name-too-long": strings.Repeat("n", 300) + "." + p.Name, "path-through-regular-file": aSource + "/below." + p.Name}[kind]
+				if inPort != "" && (kind == "path-name-too-long" || kind == "path-through-regular-file") {
+					pat += ".{i:" + inPort + "|basename}"
+				}
 				var outs []*spec.Out
 				for _, o := range p2.Outs {
 					if o.Port != outPort {
@@ -218,7 +231,7 @@ func c09(args []string) {
 			c.Inconclusive("the failing task never started")
 			return
 		}
-		ps := failureProblems(res, j.exp, j.f, j.fp, j.idx)
+		ps := failureProblems(res, j.exp, j.f, j.fp, j.idx, j.mode == "path-name-too-long" || j.mode == "path-through-regular-file")
 		if len(ps) > 0 {
 			who := j.fp
 			if j.f != nil {
@@ -260,6 +273,8 @@ func classOf(mode string) string {
 		return "output-not-produced"
 	case "empty-param", "missing-tag", "path-space", "path-colon", "path-empty":
 		return "task-unformable"
+	case "path-name-too-long", "path-through-regular-file":
+		return "output-path-unusable"
 	}
 	return "nonzero-exit"
 }
